@@ -254,7 +254,9 @@ def econd_summary(ev, bound, rec):
     res = T('tuple', *res.args)
   if init.op == 'list':
     init = T('tuple', *init.args)
-  return T('cond', pred, res, init)
+  r_ = T('cond', pred, res, init)
+  ev.cond_log.append((r_, rec.caller if rec is not None else ev.cur_fq(), rec.node if rec is not None else None))
+  return r_
 
 
 def check_efficient_cond(ctx, rule):
